@@ -14,7 +14,7 @@ from vmon.libutil import load_definition, monitored
 
 LEVEL = "exploration"
 SHARDS = {"quick": 16, "thorough": 16}
-MUST = ["nested.twice", "nested.diamond", "nested.shared", "root_override.generator_runs", "root_override.single_parses", "root_override.default_root_afterwards", "outcome.ok", "outcome.unrecognized", "unrec.abstract-dead-end", "unrec.ambiguous", "end.concrete-dead-end",
+MUST = ["abstract.capitalised_spelling", "nested.twice", "nested.diamond", "nested.shared", "root_override.generator_runs", "root_override.single_parses", "root_override.default_root_afterwards", "outcome.ok", "outcome.unrecognized", "unrec.abstract-dead-end", "unrec.ambiguous", "end.concrete-dead-end",
         "end.leaf", "depth.>=2", "nested.expanded", "apid-name.other", "generator.error_objects", "trees.enumerated", "reparse.same_raw_object"]
 RULE = ("document = container tree; packet = header + steering fields + one byte per container on the path; the library's "
         "outcome (item names in order, values, header/user_data views, unrecognized+partial data, or normal end) must "
@@ -111,6 +111,11 @@ def packet_for(doc, s1, s2, apid, out_len_hint=None):
 def exercise(ctx, doc, shape_sig, apids=(100,), via_generator=False, sample=False):
     info = harness.DocInfo(doc)
     xml = render.render_doc(doc, opts=render.Opts(explicit=None, rng=ctx.rng("opts")))
+    if sum(map(ord, shape_sig)) % 4 == 1 and b'abstract="true"' in xml:
+        # the flag as str(True) of a generating script would write it (the loader reads the attribute case-insensitively)
+        cap = (b"True", b"TRUE")[len(shape_sig) % 2]
+        xml = xml.replace(b'abstract="true"', b'abstract="' + cap + b'"').replace(b'abstract="false"', b'abstract="False"')
+        ctx.count("abstract.capitalised_spelling")
     ld = monitored(load_definition, xml)
     if ld.exc is not None:
         ctx.violation(f"load/exception/{type(ld.exc).__name__}", f"could not load tree document: {ld.exc!r}", {"shape": shape_sig})
